@@ -100,7 +100,3 @@ func init() {
 		Assumptions: append(append([]string{}, codec.Assumptions...), gen.Assumptions...)})
 }
 
-func init() {
-	register(&Prop{ID: "C15", Dir: "/repo", HarnessDirs: []string{"c15"}, Pkg: tgPath + "thrift_reflection", RealMeta: true,
-		Harnesses: []Harness{{Func: "H_C15_try", Covers: []string{"end"}}}})
-}
